@@ -700,6 +700,24 @@ def family_expr(ctx, i, rng):
     keys = pick_keys(rng, U, rng.choice([1, 2, 2, 3, 4]))
     try:
         e, G = make_expr(rng, U, keys, cplx, ctx.tier)
+        if rng.random() < 0.12 and not U.interior and keys[0].kind in ("coef", "const"):
+            # history: a variable whose expression was replaced before keeps its label, so one expression can hold two
+            # Variable nodes with the SAME label and DIFFERENT operands; a later replace must treat them separately
+            k0 = keys[0]
+            twin = U.coef(k0.name, 8) if k0.kind == "coef" else U.const(k0.shape, 8)
+            sc = ufl.inner(k0.obj, k0.obj) if k0.shape else k0.obj
+            if cplx and k0.shape:
+                sc = ufl.real(sc)
+            sv = ufl.variable(sc + 1.25)
+            t = sv * sv + 2 * sv
+            t_old = ufl.replace(t, {k0.obj: twin})
+            extra = 2 * t + 3 * t_old
+            if tuple(e.ufl_shape) == () and not e.ufl_free_indices:
+                e = e + extra
+            else:
+                e = extra
+            keys = keys + [Key(twin, k0.kind, k0.name)]
+            ctx.count("twin_label_variables")
         built = build_mapping(rng, U, keys, e, cplx)
     except Exception as ex:
         ctx.count("build_rejected")
